@@ -8,6 +8,7 @@ package c19
 import (
 	"encoding/json"
 	"fmt"
+	"os"
 	"regexp"
 	"sort"
 	"strings"
@@ -223,7 +224,7 @@ func runTemplate(o checks.Opts) *report.Report {
 	shapes := statusShapes(false)
 	rep.Bounds["target_status_shapes"] = len(shapes)
 	rep.Bounds["item_strings"] = len(itemStrings)
-	rep.Rule = "real ObjectTemplate controller passes: (a) the existing target object carries every status shape; (b) source item key x destination from a list of JSONPath-like strings incl. empty, dots only, unbalanced braces, indexes; (c) template text shapes; all under recover(); distinct = persisted Invalid condition / error class"
+	rep.Rule = "real ObjectTemplate controller passes: (a) the existing target object carries every status shape; (b) source item key x destination from a list of JSONPath-like strings incl. empty, dots only, unbalanced braces, indexes; (c) template text shapes incl. 11 recursion shapes of helper templates (self, mutual, leaf-then-descend, two descents, count-down, template action, inside range/pipeline); all under recover(), a Go runtime fatal error of the worker process (stack overflow) is attributed to the announced input; distinct = persisted Invalid condition / error class"
 	tmplText := "apiVersion: verif.example/v1\nkind: Widget\nmetadata:\n  name: out\nspec:\n  x: \"{{ .config.v }}\"\n"
 	mk := func(items []corev1alpha1.ObjectTemplateSourceItem, text string) *world.World {
 		w := osw.NewWorld()
@@ -288,10 +289,41 @@ func runTemplate(o checks.Opts) *report.Report {
 		}
 		judge("template-text", fmt.Sprintf("template %q", text), mk(good, text))
 	}
+	for _, name := range sortedNames(recursionTemplates) {
+		n++
+		if o.Shards > 1 && n%o.Shards != o.Shard {
+			continue
+		}
+		announce("ObjectTemplate template with recursion shape " + name)
+		text := "apiVersion: verif.example/v1\nkind: Widget\nmetadata:\n  name: out\nspec:\n  x: \"" + strings.ReplaceAll(recursionTemplates[name], `"`, `\"`) + "\"\n"
+		judge("template-text", "template with recursion shape "+name, mk(good, text))
+		judge("template-text", "bare template with recursion shape "+name, mk(good, recursionTemplates[name]))
+	}
 	rep.States, rep.Transitions = rep.Executions, rep.Executions
 	rep.Samples = append(rep.Samples, map[string]any{"key": "", "destination": ""}, map[string]any{"target_status": "status{conditions:[{type:absent}]}"})
 	return rep
 }
+
+// recursionTemplates: helper definitions that call themselves through `include` / `template` in
+// every shape that matters to a depth guard: plain self-recursion, mutual recursion, a
+// terminating call followed by a descending one on every level, two descending calls, a deep but
+// finite count-down, and recursion through the template action. Each must end in an error or a
+// result, never in a dead process.
+var recursionTemplates = map[string]string{
+	"self-include":         `{{define "r"}}{{include "r" .}}{{end}}{{include "r" .}}`,
+	"mutual-include":       `{{define "a"}}{{include "b" .}}{{end}}{{define "b"}}{{include "a" .}}{{end}}{{include "a" .}}`,
+	"leaf-then-descend":    `{{define "r"}}{{if eq (toString .) "leaf"}}x{{else}}{{include "r" "leaf"}}{{include "r" .}}{{end}}{{end}}{{include "r" "go"}}`,
+	"descend-then-leaf":    `{{define "r"}}{{if eq (toString .) "leaf"}}x{{else}}{{include "r" .}}{{include "r" "leaf"}}{{end}}{{end}}{{include "r" "go"}}`,
+	"other-helper-between": `{{define "l"}}x{{end}}{{define "r"}}{{include "l" .}}{{include "r" .}}{{end}}{{include "r" .}}`,
+	"two-descents":         `{{define "r"}}{{include "r" .}}{{include "r" .}}{{end}}{{include "r" .}}`,
+	"countdown-5000":       `{{define "c"}}{{if gt (int .) 0}}{{include "c" (sub (int .) 1)}}{{end}}{{end}}{{include "c" 5000}}`,
+	"countdown-50":         `{{define "c"}}{{if gt (int .) 0}}{{include "c" (sub (int .) 1)}}{{end}}{{end}}{{include "c" 50}}`,
+	"self-template-action": `{{define "r"}}{{template "r" .}}{{end}}{{template "r" .}}`,
+	"include-in-pipeline":  `{{define "r"}}{{include "r" . | indent 2}}{{end}}{{include "r" . | nindent 2}}`,
+	"include-inside-range": `{{define "r"}}{{range (list 1 2)}}{{include "r" $}}{{end}}{{end}}{{include "r" .}}`,
+}
+
+func announce(input string) { fmt.Fprintln(os.Stderr, "CURRENT-INPUT: "+input) }
 
 // ---- seam 3: package pipeline ----
 
@@ -307,7 +339,7 @@ func renderSafe(files map[string]string, cfg map[string]any) (res pkgw.RenderRes
 
 func runPackages(o checks.Opts) *report.Report {
 	rep := report.New("C19", "package-pipeline")
-	rep.Rule = "package file sets through the real load -> validate -> render -> phase collection pipeline under recover(): object annotation values (condition-map, collision-protection, phase, CEL condition) from a list incl. malformed ones; path shapes (empty name, components/x, components//y, leading dot, double template suffix, deep nesting); manifest shapes (no spec, duplicate phases, empty phase name, no phases, wrong kind, list instead of map); config shapes against an integer schema; CEL expressions (statically bool / non-bool / dynamically typed, compile and run-time errors) at the condition annotation, named manifest conditions, path conditions and the template cel function x 3 configs; distinct = outcome class"
+	rep.Rule = "package file sets through the real load -> validate -> render -> phase collection pipeline under recover(): object annotation values (condition-map, collision-protection, phase, CEL condition) from a list incl. malformed ones; path shapes (empty name, components/x, components//y, leading dot, double template suffix, deep nesting); manifest shapes (no spec, duplicate phases, empty phase name, no phases, wrong kind, list instead of map); config shapes against an integer schema; 11 recursion shapes of helper templates inline and in _helpers.gotmpl; CEL expressions (statically bool / non-bool / dynamically typed, compile and run-time errors) at the condition annotation, named manifest conditions, path conditions and the template cel function x 3 configs; distinct = outcome class"
 	base := func() map[string]string {
 		return map[string]string{"manifest.yaml": pkgw.Manifest{Name: "app", Phases: []string{"p1", "p2"}, ConfigProps: map[string]string{"x": "integer"}}.YAML(),
 			"a.yaml": pkgw.WidgetYAML("Widget", "a", "p1", "1", nil)}
@@ -370,6 +402,18 @@ func runPackages(o checks.Opts) *report.Report {
 		obj := obj
 		add(fmt.Sprintf("object document %q", obj), func(m map[string]string) { m["o.yaml"] = obj }, nil)
 	}
+	for _, name := range sortedNames(recursionTemplates) {
+		name := name
+		add("template recursion shape "+name+" in a .gotmpl object file", func(m map[string]string) {
+			m["r.yaml.gotmpl"] = pkgw.WidgetYAML("Widget", "r", "p2", "1", nil) + "# " + recursionTemplates[name] + "\n"
+		}, nil)
+		add("template recursion shape "+name+" with the helpers in _helpers.gotmpl", func(m map[string]string) {
+			text := recursionTemplates[name]
+			cut := strings.LastIndex(text, "{{end}}") + len("{{end}}")
+			m["_helpers.gotmpl"] = text[:cut]
+			m["r.yaml.gotmpl"] = pkgw.WidgetYAML("Widget", "r", "p2", "1", nil) + "# " + text[cut:] + "\n"
+		}, nil)
+	}
 	// CEL filter expressions at every site that evaluates them, crossed with config values: the
 	// expression grammar covers statically-bool, statically-non-bool, dynamically typed (field
 	// access on the template context) with bool and non-bool values, errors at compile and at run time.
@@ -416,6 +460,7 @@ func runPackages(o checks.Opts) *report.Report {
 		if o.Shards > 1 && i%o.Shards != o.Shard {
 			continue
 		}
+		announce("package with " + c.desc)
 		res, pan := renderSafe(c.files, c.cfg)
 		rep.Executions++
 		rep.ImplTraces++
@@ -461,9 +506,9 @@ func init() {
 			"a panic is attributed to the first package-operator.run frame on its stack",
 		},
 		Subs: []*checks.Sub{
-			{Name: "managed-object-status", Shards: func(string) int { return 8 }, Run: runManagedStatus},
-			{Name: "object-template", Shards: func(string) int { return 4 }, Run: runTemplate},
-			{Name: "package-pipeline", Shards: func(string) int { return 4 }, Run: runPackages},
+			{Name: "managed-object-status", Shards: func(string) int { return 8 }, Run: runManagedStatus, CrashIsViolation: true},
+			{Name: "object-template", Shards: func(string) int { return 4 }, Run: runTemplate, CrashIsViolation: true},
+			{Name: "package-pipeline", Shards: func(string) int { return 4 }, Run: runPackages, CrashIsViolation: true},
 		},
 	})
 }
